@@ -69,10 +69,10 @@ def ndarray2utpm(A):
     from .globalfuncs import zeros
     shp = numpy.shape(A)
     A = numpy.ravel(A)
-    retval = zeros(shp,dtype=A[0])
+    retval = zeros(shp + numpy.shape(A[0]), dtype=A[0])
 
     for na, a in enumerate(A):
-        retval[na] = a
+        retval[numpy.unravel_index(na, shp)] = a
 
     return retval
 
